@@ -1305,13 +1305,23 @@ def rule_from_data_dtype(rep: Report, ix: Index) -> None:
         raise AnalysisError(f"{f.ref}: expected one allocation `field_class(grid, ...)`, found {len(allocs)}")
     kw = {k.arg: k.value for k in allocs[0].value.keywords}
     d = kw.get("dtype")
-    ok = d is not None and any((isinstance(x, ast.Name) and x.id in (dname, "dtype")) for x in ast.walk(d))
+
+    def mentions_data_dtype(e) -> bool:
+        return any(isinstance(x, ast.Attribute) and x.attr == "dtype" and isinstance(x.value, ast.Name) and x.value.id == dname for x in ast.walk(e))
+
+    # the dtype handed to the members must be that of the data whenever the caller did not request one: the expression (or a
+    # re-binding of the name it uses) has to read `data.dtype`; the bare optional parameter `dtype` is None in nearly every call
+    ok = False
+    if d is not None:
+        ok = mentions_data_dtype(d)
+        if not ok and isinstance(d, ast.Name):
+            ok = any(isinstance(st, (ast.Assign, ast.AnnAssign)) and st.value is not None and any(isinstance(t, ast.Name) and t.id == d.id for t in (st.targets if isinstance(st, ast.Assign) else [st.target])) and mentions_data_dtype(st.value) for st in ast.walk(f.node))
     rep.oblige("FieldCollection.from_data: members that values are copied into carry the dtype of the data", ok, ast.unparse(allocs[0].value))
     if not ok:
         rep.violation(
             "C14.from-data-dtype",
             f"{f.ref}::member-allocation",
-            f"`{ast.unparse(allocs[0].value)}` allocates the members with the default dtype and `{ast.unparse(copies_in[0])[:60]}` assigns the data into them: complex (or other non-float) data are cast, "
+            f"`{ast.unparse(allocs[0].value)}` allocates the members with a dtype that is not tied to `{dname}.dtype` (the default when none is requested) and `{ast.unparse(copies_in[0])[:60]}` assigns the data into them: complex (or other non-float) data are cast, "
             "so from_data(..., with_ghost_cells=False) does not reproduce the components",
             line=allocs[0].lineno,
         )
